@@ -285,7 +285,11 @@ func (c *context) Query(name string, defaultVal ...string) string {
 }
 
 func (c *context) QueryTrim(name string, defaultVal ...string) string {
-	return strings.TrimSpace(c.Query(name, defaultVal...))
+	v := c.Query(name)
+	if v == "" && len(defaultVal) > 0 {
+		return defaultVal[0]
+	}
+	return strings.TrimSpace(v)
 }
 
 func (c *context) QueryStrings(name string, defaultVal ...[]string) []string {
@@ -302,7 +306,11 @@ func (c *context) QueryStrings(name string, defaultVal ...[]string) []string {
 }
 
 func (c *context) QueryUnescape(name string, defaultVal ...string) string {
-	v, _ := url.QueryUnescape(c.Query(name, defaultVal...))
+	v := c.Query(name)
+	if v == "" && len(defaultVal) > 0 {
+		return defaultVal[0]
+	}
+	v, _ = url.QueryUnescape(v)
 	return v
 }
 
